@@ -28,18 +28,28 @@ MinIndexOK(offered, ok, sel, target, minChange, maxInputs) ==
   LET k == PrefixLen(offered, target, minChange, maxInputs)
   IN IF k = 0 THEN ~ok ELSE ok /\ sel = [j \in 1..k |-> j]
 
-\* shortest qualifying prefix of SOME descending order by Key (ties free)
+\* shortest qualifying prefix of SOME descending order by Key (ties free).  With Key = value the totals of the
+\* top-k do not depend on how ties are broken; with Key = value-age they do (coins of equal value-age and different
+\* value, e.g. every unconfirmed coin), so the relation is stated on the selection itself: it is descending, nothing
+\* left out ranks above its last coin (= it is a prefix of a descending order), it qualifies and no shorter prefix of
+\* it does.  A refusal is judged exactly when the totals are tie-independent, and accepted otherwise if the order we
+\* happened to pick has no qualifying prefix or a tie between coins of different value exists.
+TieAmbiguous(offered, Key(_)) ==
+  \E a, b \in 1..Len(offered) : Key(offered[a]) = Key(offered[b]) /\ offered[a].value # offered[b].value
 DescPrefixOK(offered, ok, sel, target, minChange, maxInputs, Key(_)) ==
   LET n == Len(offered)
-      \* top-k totals do not depend on how ties are broken: take any descending order
       desc == SortSeq(offered, LAMBDA a, b : Key(a) > Key(b))
-      k == PrefixLen(desc, target, minChange, maxInputs)
+      k0 == PrefixLen(desc, target, minChange, maxInputs)
+      k == Len(sel)
       sc == SelCoins(offered, sel)
-  IN IF k = 0 THEN ~ok
-     ELSE /\ ok /\ Len(sel) = k
+  IN IF ~ok THEN k0 = 0 \/ TieAmbiguous(offered, Key)
+     ELSE /\ k >= 1 /\ k <= maxInputs
           /\ Cardinality({sel[j] : j \in 1..k}) = k /\ \A j \in 1..k : sel[j] \in 1..n
           /\ \A j \in 1..(k - 1) : Key(sc[j]) >= Key(sc[j + 1])                          \* descending
           /\ \A c \in 1..n : c \notin {sel[j] : j \in 1..k} => Key(offered[c]) <= Key(sc[k])  \* a prefix of a descending order
+          /\ Satisfies(target, minChange, TotalValue(sc))
+          /\ \A j \in 1..(k - 1) : ~Satisfies(target, minChange, TotalValue(SubSeq(sc, 1, j)))  \* the shortest such prefix
+          /\ (~TieAmbiguous(offered, Key) => k = k0)
 
 MinPriorityOK(offered, ok, sel, target, minChange, maxInputs, minAvg) ==
   ok => /\ ValidSelection(offered, sel, target, minChange, maxInputs)
